@@ -504,3 +504,76 @@ def c18(rng):
         bad = T.decrypt_adapter(wits[i].bytes, other)
         out.append(('amhl: hop %d with scalar of hop %d' % (i, j), [gpush(bad), bs(am[pubs[i]][1])], sfs[i], cfg, False))
     return out
+
+
+# ---------------------------------------------------------------- builder bytes vs model/Builders.v
+def bld_cases(rng):
+    """(pid, model command, bytes produced by the real builder)"""
+    out = []
+    now = Pins.now
+    a, b = rng.sample(range(len(SEEDS)), 2)
+    pk, pk2 = PUBS[a], PUBS[b]
+    fl = rng.choice([0, 1, 0x80, 0xff, rng.getrandbits(8)])
+    flh = '%02x' % fl
+    hx = lambda x: x.hex() if x else '-'
+    out.append(('C13', 'BLD single_sig_lock %s %s' % (hx(pk), flh), bs(T.make_single_sig_lock(pk, flh))))
+    sf = fields(rng)
+    w = T.make_single_sig_witness(SEEDS[a], sf, '00')
+    sig = bs(w)[2:]
+    out.append(('C13', 'BLD single_sig_witness %s' % hx(sig), bs(w)))
+    h20 = hashlib.shake_256(pk).digest(20)
+    out.append(('C13', 'BLD single_sig_lock2 %s %s' % (hx(h20), flh), bs(T.make_single_sig_lock2(pk, flh))))
+    w2 = T.make_single_sig_witness2(SEEDS[a], sf, '00')
+    out.append(('C13', 'BLD single_sig_witness2 %s %s' % (hx(sig), hx(pk)), bs(w2)))
+    n = rng.randint(1, 4)
+    ks = rng.sample(range(len(SEEDS)), n)
+    m = rng.randint(1, n)
+    out.append(('C13', 'BLD multisig_lock %s %s %02x' % (','.join(hx(PUBS[k]) for k in ks), flh, m),
+                bs(T.make_multisig_lock([PUBS[k] for k in ks], m, flh))))
+    script = Script.from_src(rng.choice(LEAF_BODIES))
+    hs = rng.choice([16, 20, 26, 32])
+    out.append(('C13', 'BLD scripthash_lock %s %02x' % (hx(hashlib.shake_256(script.bytes).digest(hs)), hs),
+                bs(T.make_scripthash_lock(script, hs))))
+    out.append(('C13', 'BLD graftroot_lock %s %s' % (hx(pk), flh), bs(T.make_graftroot_lock(pk, flh))))
+    ts = now + rng.choice([-100, -1, 0, 30, 1000, 10**6])
+    c = F.int_to_bytes(ts)
+    for ver in (False, True):
+        out.append(('C16', 'BLD ts_after_lock %s %d' % (hx(c), ver), bs(T.make_timestamp_after_lock(ts, ver))))
+        out.append(('C16', 'BLD ts_before_lock %s %d' % (hx(c), ver), bs(T.make_timestamp_before_lock(ts, ver))))
+        ts2 = ts + rng.choice([1, 50, 10**5])
+        out.append(('C16', 'BLD ts_between_lock %s %s %d' % (hx(c), hx(F.int_to_bytes(ts2)), ver), bs(T.make_timestamp_between_lock(ts, ts2, ver))))
+    timeout = rng.choice([10, 3600, 86400])
+    cd = F.int_to_bytes(now + timeout)
+    out.append(('C15', 'BLD ptlc_lock %s %s %s %s' % (hx(pk), hx(cd), hx(pk2), flh), bs(T.make_ptlc_lock(pk, pk2, timeout=timeout, sigflags=flh))))
+    pre = bytes(rng.getrandbits(8) for _ in range(rng.randint(1, 40)))
+    d = hashlib.sha256(pre).digest()
+    out.append(('C15', 'BLD htlc_sha256_lock %s %s %s %s %s' % (hx(d), hx(pk), hx(cd), hx(pk2), flh),
+                bs(T.make_htlc_sha256_lock(pk, pk2, preimage=pre, timeout=timeout, sigflags=flh))))
+    k = rng.choice([16, 20, 32])
+    dk = hashlib.shake_256(pre).digest(k)
+    out.append(('C15', 'BLD htlc_shake256_lock %02x %s %s %s %s %s' % (k, hx(dk), hx(pk), hx(cd), hx(pk2), flh),
+                bs(T.make_htlc_shake256_lock(pk, pk2, preimage=pre, hash_size=k, timeout=timeout, sigflags=flh))))
+    hr, hf = hashlib.shake_256(pk).digest(20), hashlib.shake_256(pk2).digest(20)
+    out.append(('C15', 'BLD htlc2_sha256_lock %s %s %s %s %s' % (hx(d), hx(hr), hx(cd), hx(hf), flh),
+                bs(T.make_htlc2_sha256_lock(pk, pk2, preimage=pre, timeout=timeout, sigflags=flh))))
+    hr, hf = hashlib.shake_256(pk).digest(k), hashlib.shake_256(pk2).digest(k)
+    out.append(('C15', 'BLD htlc2_shake256_lock %02x %s %s %s %s %s' % (k, hx(dk), hx(hr), hx(cd), hx(hf), flh),
+                bs(T.make_htlc2_shake256_lock(pk, pk2, preimage=pre, hash_size=k, timeout=timeout, sigflags=flh))))
+    out.append(('C14', 'BLD delegate_key_lock %s %s' % (hx(pk), flh), bs(T.make_delegate_key_lock(pk, flh))))
+    cert = T.make_delegate_key_cert(SEEDS[a], pk2, now - 10, now + 10)
+    wd = T.make_delegate_key_witness(SEEDS[b], cert, sf)
+    out.append(('C14', 'BLD delegate_key_witness %s %s' % (hx(bs(wd)[2:66]), hx(cert.pack())), bs(wd)))
+    S = Script.from_src(rng.choice(LEAF_BODIES))
+    lock = T.make_taproot_lock(pk, S, sigflags=flh)
+    out.append(('C05', 'BLD taproot_lock %s %s' % (hx(bs(lock)[2:34]), flh), bs(lock)))
+    lv = [T.ScriptLeaf.from_src(leaf_src(i, 'true')) for i in range(rng.randint(2, 4))]
+    tree = rand_tree(rng, lv)
+    out.append(('C04', 'BLD merkle_lock %s' % hx(tree.root()), bs(tree.locking_script())))
+    tw = bytes(rng.getrandbits(8) for _ in range(32))
+    t = F.clamp_scalar(tw)
+    Tp = F.derive_point_from_scalar(t)
+    l1, l2, l3 = T.make_adapter_locks_prv(pk, tw, flh)
+    out.append(('C17', 'BLD adapter_check_lock %s %s %s' % (flh, hx(Tp), hx(pk)), bs(l1)))
+    out.append(('C17', 'BLD adapter_decrypt %s' % hx(t), bs(l2)))
+    out.append(('C17', 'BLD single_sig_lock %s %s' % (hx(pk), flh), bs(l3)))
+    return out
